@@ -113,6 +113,7 @@ def make_case(rng):
     box = Box(x, y, x + w, y + h)
     attrs = [("id", "s")]
     line = None
+    rel_default_loc = None
     if shape in ("rect", "box"):
         attrs += [("xy", "%s %s" % (fmt(x), fmt(y))), ("wh", "%s %s" % (fmt(w), fmt(h)))]
     elif shape == "circle":
@@ -123,13 +124,29 @@ def make_case(rng):
         flip = rng.random() < 0.5
         p1, p2 = ((x, y), (x + w, y + h)) if not flip else ((x + w, y), (x, y + h))
         attrs += [("xy1", "%s %s" % (fmt(p1[0]), fmt(p1[1]))), ("xy2", "%s %s" % (fmt(p2[0]), fmt(p2[1])))]
+    elif shape == "text" and rng.random() < 0.35:
+        # a <text> positioned at a location of another element: its default text-loc is that location's side / corner
+        # (an edge offset moves the point along the edge, it is not applied a second time to the text itself)
+        rel = rng.choice(LOCS)
+        pre += '<rect id="ref" xy="%s %s" wh="%s %s"/>' % (fmt(x), fmt(y), fmt(w), fmt(h))
+        if ":" in rel:
+            edge, off = rel.split(":")
+            px, py = box.edge(edge, ("pct", F(off[:-1])) if off.endswith("%") else ("abs", F(off)))
+        else:
+            px, py = box.loc(rel)
+        box = Box(px, py, px, py)
+        attrs += [("xy", "#ref@%s" % rel)]
+        rel_default_loc = rel.split(":")[0]
+        feats.add("text.rel-loc" + (":edge-abs" if ":" in rel and not rel.endswith("%") else ":edge-pct" if ":" in rel else ""))
     elif shape in ("text", "point"):
         box = Box(x, y, x, y)
         attrs += [("xy", "%s %s" % (fmt(x), fmt(y)))]
     elif shape == "polygon":
         attrs += [("points", "%s,%s %s,%s %s,%s" % (fmt(x), fmt(y), fmt(x + w), fmt(y), fmt(x), fmt(y + h)))]
     loc = None
-    if rng.random() < 0.6:
+    if rel_default_loc is not None:
+        loc = rel_default_loc          # derived, no text-loc attribute written
+    elif rng.random() < 0.6:
         loc = rng.choice(LOCS)
         attrs.append(("text-loc", loc))
         feats.add("loc." + loc.split(":")[0] + (":edge" if ":" in loc else ""))
